@@ -35,6 +35,11 @@ def _announce_twice(r, f):
     return f
 
 
+import re
+
+_ADDR = re.compile(r" object at 0x[0-9a-fA-F]+>")
+
+
 def make_jobs(r, n):
     jobs = []
     for i in range(n):
@@ -129,6 +134,8 @@ class C12(C07):
         r = random.Random(c["sigma_seed"])
         for t, o, out in rec:
             inter = [k for k, _ in o if k in {x for x, _ in t}]
+            if any((p.get("default") or {}).get("t") == "other" for _, p in t + o):
+                continue  # (a container default has no counterpart in the model's value grammar)
             for _ in range(2):
                 r.shuffle(inter)
                 op = {"op": "ir_merge", "target": t, "other": o, "sigma": list(inter)}
@@ -144,8 +151,9 @@ class C12(C07):
             outs = set(a[c["job"]["id"]] + b[c["job"]["id"]])
             return [] if len(outs) == 1 else [{"what": "output differs between processes / call orders", "outputs": sorted(outs)[:3]}]
         try:
-            x = json.dumps(irutil.ir_to_json(self.parse_it(c)), default=repr)
-            y = json.dumps(irutil.ir_to_json(self.parse_it(c)), default=repr)
+            # (an ast node left in the description by a recorded defect prints with its memory address)
+            x = _ADDR.sub(" object>", json.dumps(irutil.ir_to_json(self.parse_it(c)), default=repr))
+            y = _ADDR.sub(" object>", json.dumps(irutil.ir_to_json(self.parse_it(c)), default=repr))
         except Exception:
             return []
         return [] if x == y else [{"what": "two parses of the same source differ within one process", "first": x[:300], "second": y[:300]}]
